@@ -853,6 +853,7 @@ Outcome run_case(Case &c, const RunnerOpts &ro) {
         }
         sim::arm_alloc(false);
         fold_outputs(x, info, (op.kind == OP_GSSVX && op.x.lwork != -1 && info >= 0 && info <= n + 1) ? &xo : nullptr);
+        if (op.kind == OP_GSSVX && op.x.lwork == -1) { uint64_t u; double d = xo.mem_total_needed; memcpy(&u, &d, sizeof u); sim::obs(u); }   // a query's estimate is its result
         sim::RunStats st;
         sim::end_run(st);
         monitor_end_op(out, opi, info);
